@@ -142,6 +142,25 @@ Proof.
   exists ItemError, (start l), ps. repeat split; try lia. now left.
 Qed.
 
+Lemma good_eof total lo M st ps :
+  lo <= st -> st <= ps -> ps = total -> good total lo M ([(ItemEOF, st, ps)], None, mkLx [] ps ps ItemEOF).
+Proof.
+  intros H0 H1 H2. unfold good, wf. cbn [rest start pos wsum]. split; [lia|]. split; [lia|].
+  exists ItemEOF, st, ps. split; [reflexivity|]. split; [lia|]. split; [lia|]. split; [reflexivity|]. now right.
+Qed.
+
+Lemma good_goto total lo M s' l' :
+  wf total l' -> lo <= start l' -> mu s' l' < M -> good total lo M ([], Some s', l').
+Proof. intros H0 H1 H2. unfold good. split; [exact H0|]. split; [exact H1|]. split; [exact H2|]. now left. Qed.
+
+Lemma good_sym total lo M k st e rs :
+  lo <= st -> st <= e -> e + wsum rs = total -> nonterm k -> 4 * length rs + 4 < M ->
+  good total lo M ([(k, st, e)], Some SSpace, mkLx rs e e k).
+Proof.
+  intros H0 H1 H2 H3 H4. unfold good, wf, mu. cbn [rest start pos rank]. split; [lia|]. split; [lia|]. split; [lia|].
+  right. exists k, st, e. split; [reflexivity|]. split; [lia|]. split; [lia|]. split; [reflexivity|]. exact H3.
+Qed.
+
 Section Proofs.
 Variable U : uni.
 Variable total : nat.
@@ -176,13 +195,13 @@ Proof.
     + inversion H; subst. cbn [wsum length]. lia.
 Qed.
 
-Ltac ar := cbn [wsum length rest start pos last rank] in *; try lia.
+Ltac ar := unfold rw in *; cbn [wsum length rest start pos last rank] in *; try lia.
 
 (* ---- lexSpace, lexBinding, lexKeyword ---- *)
 Lemma lex_space_good l : wf total l -> good total (start l) (mu SSpace l) (lex_space U l).
 Proof.
   intros [Hs Hp]. unfold lex_space. destruct (scan_while (is_space U) (pos l) (rest l)) as [p' rs'] eqn:E.
-  apply scan_while_spec in E. unfold good, wf, mu. cbn. repeat split; try lia. now left.
+  apply scan_while_spec in E. apply good_goto; unfold wf, mu; ar.
 Qed.
 
 Lemma lex_binding_good l : wf total l -> good total (start l) (mu SBinding l) (lex_binding U l).
@@ -280,9 +299,9 @@ Proof.
   intros [Hs Hp]. unfold lex_pred_or_lit.
   set (pi := index_of (zs s_anchor) (map fst (rest l))). set (li := index_of (zs s_literalType) (map fst (rest l))).
   assert (G : forall st, st = SPredicate \/ st = SLiteral -> good total (start l) (mu SPredOrLit l) ([], Some st, l)).
-  { intros st Hst. unfold good, wf, mu. repeat split; try lia; [|now left].
-    destruct Hst; subst; cbn; lia. }
-  destruct pi as [p|]; destruct li as [q|]; try (apply G; match goal with |- context [if ?c then _ else _] => destruct c end; auto).
+  { intros st Hst. apply good_goto; unfold wf, mu; try lia. destruct Hst; subst; cbn [rank]; lia. }
+  destruct pi as [p|]; destruct li as [q|]; cbv beta iota;
+    try (apply G; repeat match goal with |- context [if ?c then _ else _] => destruct c end; auto).
   apply good_error; lia.
 Qed.
 
@@ -309,7 +328,7 @@ Proof.
       * eapply good_mono; [apply IH|]; ar.
       * destruct (Z.eqb r2 r_quote); (eapply good_mono; [apply IH|]); ar.
     + destruct (Z.eqb r r_quote).
-      * destruct (consume U (zs s_anchor) ps ((r, w) :: rs)) as [[b p1] rs1] eqn:C.
+      * match goal with |- context [consume ?xa ?xb ?xc ?xd] => destruct (consume xa xb xc xd) as [[b p1] rs1] eqn:C end.
         apply consume_spec in C. destruct b.
         -- eapply good_mono; [apply bounds_loop_good|]; ar.
         -- apply good_error; ar.
@@ -345,7 +364,7 @@ Proof.
       * eapply good_mono; [apply IH|]; ar.
       * destruct (Z.eqb r2 r_quote); (eapply good_mono; [apply IH|]); ar.
     + destruct (Z.eqb r r_quote).
-      * destruct (consume U (zs s_literalType) ps ((r, w) :: rs)) as [[b p1] rs1] eqn:C.
+      * match goal with |- context [consume ?xa ?xb ?xc ?xd] => destruct (consume xa xb xc xd) as [[b p1] rs1] eqn:C end.
         apply consume_spec in C. destruct b.
         -- eapply good_mono; [apply literal_tail_good|]; ar.
         -- apply good_error; ar.
@@ -405,31 +424,29 @@ Lemma lex_token_good : forall n rs, length rs <= n -> forall lastk lo st ps,
   good total lo (4 * length rs + 3) (lex_token U lastk st ps rs).
 Proof.
   induction n as [|n IH]; intros rs Hn lastk lo st ps H0 H1 H2.
-  - destruct rs; [|cbn in Hn; lia]. cbn. unfold good, wf. cbn. repeat split; try lia.
-    exists ItemEOF, st, ps. repeat split; try lia. now right.
+  - destruct rs; [|cbn in Hn; lia]. cbn [lex_token]. apply good_eof; ar.
   - destruct rs as [|[r w] rs].
-    { cbn. unfold good, wf. cbn. repeat split; try lia. exists ItemEOF, st, ps. repeat split; try lia. now right. }
+    { cbn [lex_token]. apply good_eof; ar. }
     cbn [length] in Hn. cbn [lex_token].
     assert (Here : forall s', rank s' ((r, w) :: rs) < 3 ->
               good total lo (4 * length ((r, w) :: rs) + 3) ([], Some s', mkLx ((r, w) :: rs) st ps lastk)).
-    { intros s' Hr. unfold good, wf, mu. cbn [rest start pos]. repeat split; ar. now left. }
+    { intros s' Hr. apply good_goto; unfold wf, mu; ar. }
     destruct (is_digit U r && mem_N lastk last_global_time); [apply Here; cbn; lia|].
     destruct (is_digit U r && mem_N lastk last_local_time); [apply Here; cbn; lia|].
     destruct (Z.eqb r r_binding).
-    { unfold good, wf, mu. cbn. repeat split; ar. now left. }
+    { apply good_goto; unfold wf, mu; ar. }
     destruct (Z.eqb r r_slash); [apply Here; cbn; lia|].
     destruct (Z.eqb r r_underscore).
-    { unfold good, wf, mu. cbn. repeat split; ar. now left. }
+    { apply good_goto; unfold wf, mu; ar. }
     destruct (Z.eqb r r_quote); [apply Here; cbn; lia|].
     destruct (is_letter U r).
     { destruct (mem_N lastk last_filter_function); apply Here; cbn; lia. }
     destruct (assoc_sym r single_symbols) as [k|] eqn:A.
-    { unfold good, wf, mu. cbn. repeat split; ar. right. exists k, st, (ps + w). repeat split; ar;
-      apply (assoc_sym_nonterm _ _ _ symbols_nonterm A). }
+    { apply good_sym; ar. apply (assoc_sym_nonterm _ _ _ symbols_nonterm A). }
     destruct (is_space U r).
     { eapply good_mono; [apply IH|]; ar. }
     destruct rs as [|[r2 w2] rs2].
-    { unfold good, wf. cbn. repeat split; ar. exists ItemEOF, st, (ps + w). repeat split; ar. now right. }
+    { apply good_eof; ar. }
     eapply good_mono; [apply IH|]; ar.
 Qed.
 
@@ -479,7 +496,8 @@ Proof.
   destruct (step U s l) as [[toks nxt] l']. unfold good in G. destruct G as (Hw' & Hs' & G).
   destruct nxt as [s'|].
   - destruct G as [Hm Ht]. destruct (run U f s' l') as [ts' fin'] eqn:R.
-    inversion Hrun; subst. destruct (IH s' l' ts' fin' Hw' ltac:(lia) R) as (F & O & (pre & t & E & T & P)).
+    injection Hrun as Ets Efin. subst ts fin.
+    destruct (IH s' l' ts' fin' Hw' ltac:(lia) R) as (F & O & (pre & t & E & T & P)).
     split; [exact F|]. destruct Ht as [Ht|(k & s0 & e & Ht & A & B & C & D)]; subst toks.
     + cbn [app]. split; [eapply ordered_lo; eauto|]. exists pre, t. auto.
     + cbn [app]. split.
@@ -536,4 +554,43 @@ Theorem lex_with_good U inp ts fin : lex_with U inp = (ts, fin) ->
 Proof.
   intro H. unfold lex_with in H. eapply lex_runes_good; [|exact H].
   apply (wsum_decode_all (length inp)). apply le_n.
+Qed.
+
+(* ---- the same facts in elementary terms ---- *)
+Lemma ordered_bounds : forall ts lo hi, ordered lo ts hi ->
+  lo <= hi /\ Forall (fun t => lo <= tk_start t /\ tk_start t <= tk_end t /\ tk_end t <= hi) ts.
+Proof.
+  induction ts as [|t r IH]; intros lo hi H; cbn in H.
+  - split; [exact H|constructor].
+  - destruct H as (A & B & C). apply IH in C. destruct C as [C1 C2]. split; [lia|].
+    constructor; [lia|]. eapply Forall_impl; [|exact C2]. cbn. intros a Ha. lia.
+Qed.
+
+Lemma ordered_adjacent : forall ts lo hi, ordered lo ts hi ->
+  forall pre a b post, ts = pre ++ a :: b :: post -> tk_end a <= tk_start b.
+Proof.
+  induction ts as [|t r IH]; intros lo hi H pre a b post E.
+  - destruct pre; discriminate.
+  - cbn in H. destruct H as (A & B & C). destruct pre as [|p pre]; cbn in E.
+    + inversion E; subst. cbn in C. lia.
+    + inversion E; subst. eapply IH; eauto.
+Qed.
+
+Lemma skipn_skipn' {A} : forall b a (l : list A), skipn a (skipn b l) = skipn (b + a) l.
+Proof.
+  induction b as [|b IH]; intros a l; [reflexivity|]. destruct l as [|x l]; cbn [skipn plus].
+  - now rewrite skipn_nil.
+  - apply IH.
+Qed.
+
+Lemma sub_bytes_is_substring (inp : list byte) s e : s <= e -> e <= length inp ->
+  inp = firstn s inp ++ sub_bytes inp s e ++ skipn e inp /\ length (firstn s inp) = s /\
+  length (sub_bytes inp s e) = e - s.
+Proof.
+  intros H1 H2. unfold sub_bytes. split; [|split].
+  - rewrite <- (firstn_skipn s inp) at 1. f_equal.
+    rewrite <- (firstn_skipn (e - s) (skipn s inp)) at 1. f_equal.
+    rewrite skipn_skipn'. f_equal. lia.
+  - apply firstn_length_le. lia.
+  - rewrite firstn_length, skipn_length. lia.
 Qed.
